@@ -20,7 +20,7 @@
    Known deviations of mvdan/sh are *named* here (set dv of deviation names); FieldsD(dv) is what
    the code is known to compute instead.  The engine accepts impl = FieldsD(dv) # FieldsD({})
    only under the known-finding key of exactly that deviation set. *)
-EXTENDS Integers, Sequences, FiniteSets, TLC, Json, ShText
+EXTENDS Integers, Sequences, FiniteSets, TLC, Json, ShText, ShSplitCore
 
 CONSTANTS
   MaxTok,      \* tokens per word (a general "..." group costs 2 + its content)
@@ -28,7 +28,12 @@ CONSTANTS
   MaxExp,      \* expansion tokens per word
   TokSet,      \* token menu of this tier
   IfsSet,      \* indices into IfsMenu used for menu-valued (family B) vectors
-  ShapeSet,    \* indices into ShapeMenu for v and w
+  ShapeSet,    \* indices into ShapeMenu for v
+  WShapeSet,   \* indices into ShapeMenu for w (the second variable)
+  MixShapeSet, \* indices into ShapeMenu for v when the word also uses the positional parameters
+  MixParamSet, \* indices into ParamMenu in that case
+  CSMaxLen,    \* words containing a command substitution have at most this many tokens
+  SimMinTok,   \* 0 for exhaustive runs; in -simulate runs a word is closed only at this weight
   ParamSet,    \* indices into ParamMenu
   RawMaxTok,   \* words with one expansion of v and at most this many tokens get *raw* values
   MaxRaw,      \* length of raw values (family A), all strings over Alpha(ifs)
@@ -110,6 +115,7 @@ CanAdd(ts, t) ==
   /\ t \in TokSet
   /\ (t \in ExpTok => Count(ts, ExpTok) < MaxExp)
   /\ (t \in {"W","QW"} => UsesV(ts))            \* v is the first variable used (symmetry)
+  /\ ((t \in {"CS","QCS"} \/ UsesCS(ts)) => Len(ts) < CSMaxLen)
   /\ IF InDq(ts)
      THEN \/ t \in InTok /\ InnerLen(ts) < MaxDqInner /\ Weight(ts) < MaxTok
           \/ t = "DQ" /\ InnerLen(ts) >= 2      \* 0 and 1 inside are the one-token forms
@@ -129,16 +135,8 @@ Parts(ts) ==
 
 -----------------------------------------------------------------------------
 (* Stage 1: expansion and quote marking *)
-IsWs(c) == c \in {" ", "TAB", "NL"}
-Range(s) == { s[i] : i \in 1..Len(s) }
-IfsChars(ifs) == IF ifs.set THEN Range(ifs.val) ELSE {" ", "TAB", "NL"}
 \* separator of "$*" (and of unquoted $* / $@ before they are split)
 StarSep(ifs) == IF ~ifs.set THEN <<" ">> ELSE IF ifs.val = <<>> THEN <<>> ELSE <<ifs.val[1]>>
-
-Ch(c, s) == [k |-> "c", c |-> c, s |-> s]
-NUL == [k |-> "nul", c |-> "", s |-> FALSE]
-BRK == [k |-> "brk", c |-> "", s |-> FALSE]
-Chars(t, s) == [i \in 1..Len(t) |-> Ch(t[i], s)]
 
 RECURSIVE JoinT(_, _)
 JoinT(ts, sep) == IF ts = <<>> THEN <<>> ELSE IF Len(ts) = 1 THEN ts[1]
@@ -207,28 +205,7 @@ RECURSIVE ItemsOf(_, _, _)
 ItemsOf(ps, e, dv) == IF ps = <<>> THEN <<>> ELSE PartItems(Head(ps), e, dv) \o ItemsOf(Tail(ps), e, dv)
 
 -----------------------------------------------------------------------------
-(* Stage 2: splitting.  mode: "N" no field open, "O" field open (cur), and inside a delimiter
-   run: "Rc" only white space so far and the run closed a field, "Rn" only white space so far and
-   nothing was open, "R1" at least one non-white-space delimiter seen. *)
-RECURSIVE Fold(_, _, _, _, _, _)
-Fold(items, IC, allws, fields, cur, mode) ==
-  IF items = <<>> THEN (IF mode = "O" THEN Append(fields, cur) ELSE fields)
-  ELSE LET it == Head(items)  rest == Tail(items) IN
-    IF it.k = "nul" THEN Fold(rest, IC, allws, fields, IF mode = "O" THEN cur ELSE <<>>, "O")
-    ELSE IF it.k = "brk" THEN
-      (IF mode = "O" THEN Fold(rest, IC, allws, Append(fields, cur), <<>>, "N")
-       ELSE Fold(rest, IC, allws, fields, <<>>, "N"))
-    ELSE IF ~(it.s /\ it.c \in IC) THEN
-      Fold(rest, IC, allws, fields, (IF mode = "O" THEN cur ELSE <<>>) \o <<it.c>>, "O")
-    ELSE IF IsWs(it.c) \/ allws THEN
-      (CASE mode = "O" -> Fold(rest, IC, allws, Append(fields, cur), <<>>, "Rc")
-         [] mode = "N" -> Fold(rest, IC, allws, fields, <<>>, "Rn")
-         [] OTHER      -> Fold(rest, IC, allws, fields, <<>>, mode))
-    ELSE
-      (CASE mode = "O"  -> Fold(rest, IC, allws, Append(fields, cur), <<>>, "R1")
-         [] mode = "Rc" -> Fold(rest, IC, allws, fields, <<>>, "R1")
-         [] OTHER       -> Fold(rest, IC, allws, Append(fields, <<>>), <<>>, "R1"))   \* N, Rn, R1
-
+(* Stage 2: splitting is ShSplitCore!Fold (shared with ShShellApi, C25). *)
 HasEmptyDq(ps) == \E i \in 1..Len(ps) : ps[i].k = "dq" /\ ps[i].inner = <<>>
 
 \* What the word must expand to (dv = {}), or what the code is known to produce (dv # {}).
@@ -238,14 +215,23 @@ FieldsD(ts, e, dv) ==
   IN IF "dqe" \in dv /\ fs = <<>> /\ HasEmptyDq(ps) THEN << <<>> >> ELSE fs
 Fields(ts, e) == FieldsD(ts, e, {})
 
-\* bash 5.2 does not absorb IFS white space *before* a multi-byte IFS character into the delimiter
-\* (IFS=" é", "b é c" -> <b><><c> but IFS=" x", "b x c" -> <b><c>): such vectors are compared
-\* with the specification only, not with bash.
-BashMbQuirk(ts, e) ==
-  LET its == ItemsOf(Parts(ts), e, {})  IC == IfsChars(e.ifs) IN
-  \E i \in 1..(Len(its)-1) :
-     /\ its[i].k = "c" /\ its[i].s /\ its[i].c \in IC /\ IsWs(its[i].c)
-     /\ its[i+1].k = "c" /\ its[i+1].s /\ its[i+1].c \in IC /\ its[i+1].c = "eacute"
+\* Three defects of bash 5.2 (two with multi-byte IFS characters, one with IFS=""); vectors that
+\* hit one are compared with the specification only, not with bash:
+\*  (1) IFS white space *before* a multi-byte IFS character is not absorbed into the delimiter
+\*      ("b é c" -> <b><><c>, but IFS=" x", "b x c" -> <b><c>);
+\*  (2) a *quoted* multi-byte IFS character is split in the middle of its bytes when the word
+\*      undergoes splitting ('c éd'$v -> <c \303><d>).
+\*  (3) with IFS="" a backslash-space inside double quotes that also contain $@ loses its space
+\*      and splits the word (IFS=; set -- a; "\ $@" -> <\><a>, while "\ $*" -> <\ a>).
+BashQuirk(ts, e) ==
+  LET ps == Parts(ts)  its == ItemsOf(ps, e, {})  IC == IfsChars(e.ifs) IN
+  \/ /\ e.ifs.set /\ e.ifs.val = <<>>
+     /\ \E i \in 1..Len(ps) : ps[i].k = "dq" /\ HasTok(ps[i].inner, "ESP") /\ HasTok(ps[i].inner, "AT")
+  \/ \E i \in 1..(Len(its)-1) :
+       /\ its[i].k = "c" /\ its[i].s /\ its[i].c \in IC /\ IsWs(its[i].c)
+       /\ its[i+1].k = "c" /\ its[i+1].s /\ its[i+1].c \in IC /\ its[i+1].c = "eacute"
+  \/ /\ "eacute" \in IC
+     /\ \E i \in 1..Len(its) : its[i].k = "c" /\ ~its[i].s /\ its[i].c = "eacute"
 
 -----------------------------------------------------------------------------
 (* Second definition, for one unquoted expansion: the POSIX text read as a recursive descent. *)
@@ -304,14 +290,30 @@ AddTok == /\ phase = "word"
 RawWord(ts) == /\ Len(ts) <= RawMaxTok /\ Count(ts, ExpTok) = 1 /\ UsesV(ts)
 RawBound(ts) == IF UsesCS(ts) THEN MaxRawCS ELSE MaxRaw
 
-ChooseEnvMenu ==
-  /\ phase = "word" /\ Complete(toks) /\ ~RawWord(toks)
-  /\ \E i \in IfsSet :
-       /\ ifsI' = i
-       /\ \E s \in (IF UsesV(toks) THEN ShapeSet ELSE {1}) : vv' = ShapeVal(s, i)
-       /\ \E s \in (IF UsesW(toks) THEN ShapeSet ELSE {1}) : ww' = ShapeVal(s, i)
-       /\ \E p \in (IF UsesP(toks) THEN ParamSet ELSE {1}) : pp' = ParamVal(p, i)
-  /\ phase' = "done" /\ UNCHANGED toks
+\* The menu environment is chosen in stages (IFS, v, w, parameters; unused ones are skipped) so
+\* that every step has few successors (this matters for -simulate).
+After(ph, ts) ==
+  IF ph = "ifs" /\ UsesV(ts) THEN "v"
+  ELSE IF ph \in {"ifs", "v"} /\ UsesW(ts) THEN "w"
+  ELSE IF ph \in {"ifs", "v", "w"} /\ UsesP(ts) THEN "p"
+  ELSE "done"
+ChooseIfs ==
+  /\ phase = "word" /\ Complete(toks) /\ ~RawWord(toks) /\ Weight(toks) >= SimMinTok
+  /\ \E i \in IfsSet : ifsI' = i
+  /\ phase' = After("ifs", toks) /\ UNCHANGED <<toks, vv, ww, pp>>
+ChooseV ==
+  /\ phase = "v"
+  /\ \E s \in (IF UsesP(toks) THEN MixShapeSet ELSE ShapeSet) : vv' = ShapeVal(s, ifsI)
+  /\ phase' = After("v", toks) /\ UNCHANGED <<toks, ifsI, ww, pp>>
+ChooseW ==
+  /\ phase = "w"
+  /\ \E s \in WShapeSet : ww' = ShapeVal(s, ifsI)
+  /\ phase' = After("w", toks) /\ UNCHANGED <<toks, ifsI, vv, pp>>
+ChooseP ==
+  /\ phase = "p"
+  /\ \E q \in (IF UsesV(toks) THEN MixParamSet ELSE ParamSet) : pp' = ParamVal(q, ifsI)
+  /\ phase' = "done" /\ UNCHANGED <<toks, ifsI, vv, ww>>
+ChooseEnvMenu == ChooseIfs \/ ChooseV \/ ChooseW \/ ChooseP
 
 ChooseEnvRaw ==
   /\ phase = "word" /\ Complete(toks) /\ RawWord(toks)
@@ -390,7 +392,7 @@ Emit ==
        ifs |-> e.ifs, v |-> vv, w |-> ww, params |-> pp,
        exp |-> exp,
        devs |-> [k \in 1..Len(dseq) |-> [n |-> DevName(DevSets[dseq[k]]), exp |-> dres[dseq[k]]]],
-       mbquirk |-> BashMbQuirk(toks, e),
+       bashquirk |-> BashQuirk(toks, e),
        nontrivial |-> (Len(exp) # 1) ])>>)
 
 EmitInv == Emit
